@@ -18,6 +18,7 @@ from __future__ import annotations
 
 import fcntl
 import hashlib
+import importlib
 import json
 import os
 import random
@@ -354,3 +355,20 @@ def shrink_list(items: list, still_fails: Callable[[list], bool], max_steps=200)
                 break
             n = min(len(cur), n * 2)
     return cur
+
+
+def load_property(prop: str):
+    mod = importlib.import_module(prop.lower())
+    # cross-property additions (harness/consttie.py): extra translators / Lean targets / theorems tying the numeric
+    # constants and defaults hard-coded in a property's hand model to the values re-read from the source on every run
+    try:
+        extra = importlib.import_module("consttie").EXTRA.get(prop.upper(), {})
+    except ModuleNotFoundError:
+        extra = {}
+    if extra and not getattr(mod, "_consttie_applied", False):
+        mod.TRANSLATORS = list(getattr(mod, "TRANSLATORS", [])) + list(extra.get("translators", []))
+        mod.LEAN_TARGETS = list(mod.LEAN_TARGETS) + [t for t in extra.get("targets", []) if t not in mod.LEAN_TARGETS]
+        mod.THEOREMS = list(mod.THEOREMS) + list(extra.get("theorems", []))
+        mod.TRUSTED_BASE = list(mod.TRUSTED_BASE) + list(extra.get("trusted_base", []))
+        mod._consttie_applied = True
+    return mod
